@@ -604,8 +604,11 @@ def t_unquote(rng, u, info):
 
 
 def t_attr_novalue(rng, u, info):
-    return _splice_root(u, info, rng.choice([S(" q"), S(" q="), S(" q= "), S(" =\"v\""), S(" \"v\""), S(" q=\"v"),
-                                             S(" q='v\""), S(" q \"v\""), S(" q=\"v\"r=\"w\""), S(" q=\"v\" q=\"w\""),
+    return _splice_root(u, info, rng.choice([S(" q"), S(" q="), S(" q= "), S(" =\"v\""), S(" \"v\""),
+                                             # (a missing / mismatched closing quote is not guaranteed to break the
+                                             #  document: the value may run on to a later quote and leave a
+                                             #  well-formed tag; that class is covered by the truncation operator)
+                                             S(" q \"v\""), S(" q=\"v\"r=\"w\""), S(" q=\"v\" q=\"w\""),
                                              S(" q==\"v\""), S(" q=\"<\""), S(" q=\"&\""), S(" q=\"&z;\"")]))
 
 
